@@ -1,7 +1,8 @@
 (* C15 — proofs: codec round trips and order, tuple layout, canonical form,
-   tuple comparison, builder; the F9 refutation. *)
+   tuple comparison, builder; the F9 refutation; varint; oracle_on_model;
+   float and decimal orders. *)
 From Coq Require Import NArith ZArith List Bool Lia ZifyN ZifyBool.
-From Dolt Require Import Base.Str Gen.C15Consts C15.Model C15.Spec.
+From Dolt Require Import Base.Str Gen.C15Consts C15.Model C15.Spec C15.Corr.
 Import ListNotations.
 Local Open Scope N_scope.
 Ltac Zify.zify_post_hook ::= Z.div_mod_to_equations.
@@ -685,3 +686,760 @@ Example fields_ok_example : fields_ok [Some [1; 0; 0; 0]; None; Some [104; 105; 
 Proof. split; [intros b [H | [H | [H | [H | []]]]]; inversion H; discriminate | reflexivity]. Qed.
 Example wf_row_example : wf_row [EInt32; EString; EDecimal] [Some (VZ (-2)%Z); None; Some (VDec (DFin true 12345 (-2)%Z))] = true.
 Proof. reflexivity. Qed.
+
+
+(* ================================================================== *)
+(* SQLite4 varint (used by the out-of-band form of adaptive values)    *)
+Lemma be_dec_firstn k x rest :
+  x < 2 ^ (8 * N.of_nat k) -> be_dec (firstn k (be_enc k x ++ rest)) = x.
+Proof.
+  intros H. rewrite <- (be_enc_length k x) at 1.
+  rewrite firstn_app, firstn_all, Nat.sub_diag, firstn_O, app_nil_r.
+  apply be_dec_enc. exact H.
+Qed.
+
+Theorem vi_roundtrip (n : N) (rest : bytes) :
+  n < 2 ^ 64 -> vi_dec (vi_enc n ++ rest) = (n, len (vi_enc n)).
+Proof.
+  intros H. unfold vi_enc.
+  destruct (N.ltb_spec n 241) as [H1 | H1].
+  { cbn [app vi_dec]. destruct (N.leb_spec n 240); [reflexivity | lia]. }
+  destruct (N.ltb_spec n 2288) as [H2 | H2].
+  { cbn [app vi_dec nth].
+    pose proof (N.div_mod (n - 240) 256 ltac:(lia)) as E.
+    pose proof (N.mod_lt (n - 240) 256 ltac:(lia)) as Er.
+    set (q := (n - 240) / 256) in *. set (r := (n - 240) mod 256) in *.
+    destruct (N.leb_spec (q + 241) 240); [lia|].
+    destruct (N.leb_spec (q + 241) 248); [|lia].
+    unfold len. cbn [length]. f_equal. lia. }
+  destruct (N.ltb_spec n 67824) as [H3 | H3].
+  { cbn [app vi_dec nth].
+    change (249 <=? 240) with false. change (249 <=? 248) with false. change (249 =? 249) with true. cbv iota.
+    pose proof (N.div_mod (n - 2288) 256 ltac:(lia)) as E.
+    pose proof (N.mod_lt (n - 2288) 256 ltac:(lia)) as Er.
+    set (q := (n - 2288) / 256) in *. set (r := (n - 2288) mod 256) in *.
+    unfold len. cbn [length]. f_equal. lia. }
+  assert (Hbe : forall k tag, (tag = 247 + N.of_nat k) -> (3 <= k <= 8)%nat -> n < 2 ^ (8 * N.of_nat k) ->
+            vi_dec ((tag :: be_enc k n) ++ rest) = (n, len (tag :: be_enc k n))).
+  { intros k tag Ht Hk Hn. cbn [app vi_dec].
+    destruct (N.leb_spec tag 240); [lia|]. destruct (N.leb_spec tag 248); [lia|].
+    destruct (N.eqb_spec tag 249); [lia|].
+    replace (N.to_nat (tag - 247)) with k by lia.
+    rewrite be_dec_firstn by exact Hn. unfold len. cbn [length]. rewrite be_enc_length. f_equal. lia. }
+  destruct (N.ltb_spec n (2 ^ 24)) as [H4 | H4]; [apply (Hbe 3%nat); [reflexivity | lia | exact H4]|].
+  destruct (N.ltb_spec n (2 ^ 32)) as [H5 | H5]; [apply (Hbe 4%nat); [reflexivity | lia | exact H5]|].
+  destruct (N.ltb_spec n (2 ^ 40)) as [H6 | H6]; [apply (Hbe 5%nat); [reflexivity | lia | exact H6]|].
+  destruct (N.ltb_spec n (2 ^ 48)) as [H7 | H7]; [apply (Hbe 6%nat); [reflexivity | lia | exact H7]|].
+  destruct (N.ltb_spec n (2 ^ 56)) as [H8 | H8]; [apply (Hbe 7%nat); [reflexivity | lia | exact H8]|].
+  apply (Hbe 8%nat); [reflexivity | lia | exact H].
+Qed.
+
+Theorem vi_first_byte_nonzero (n : N) : 0 < n -> hd 0 (vi_enc n) <> 0.
+Proof.
+  intros H. unfold vi_enc.
+  repeat match goal with |- context [if ?c then _ else _] => destruct c end; cbn [hd]; lia.
+Qed.
+
+Lemma vi_enc_nonempty n : vi_enc n <> [].
+Proof. unfold vi_enc. repeat match goal with |- context [if ?c then _ else _] => destruct c end; discriminate. Qed.
+
+(* reading the content behind an out-of-band adaptive value *)
+Lemma ad_content_outline (read : bytes -> bytes) (content addr : bytes) :
+  0 < len content -> len content < 2 ^ 64 -> ad_content read (ad_outline content addr) = read addr.
+Proof.
+  intros Hpos Hlt. unfold ad_outline, ad_content.
+  pose proof (vi_first_byte_nonzero _ Hpos) as Hnz.
+  pose proof (vi_roundtrip _ addr Hlt) as Hrt.
+  destruct (vi_enc (len content)) as [|h t] eqn:E; [exfalso; apply (vi_enc_nonempty (len content)); exact E|].
+  cbn [hd] in Hnz. change ((h :: t) ++ addr) with (h :: (t ++ addr)) in *.
+  cbv beta iota.
+  destruct (N.eqb_spec h 0) as [E0 | _]; [contradiction|].
+  rewrite Hrt. cbn [snd]. unfold len. rewrite !Nat2N.id.
+  change (h :: t ++ addr) with ((h :: t) ++ addr). rewrite skipn_app, skipn_all, Nat.sub_diag. reflexivity.
+Qed.
+
+(* ================================================================== *)
+(* What the builder holds for each column                              *)
+Definition form_ok (c : bcell) (f : field) : Prop :=
+  match c with
+  | BNull => f = None
+  | BPlain e v => f = Some (encode e v)
+  | BAdaptive _ content addr =>
+    f = Some (ad_inline content) \/ (f = Some (ad_outline content addr) /\ 0 < len content)
+  end.
+
+Lemma vi_enc_len_pos n : 0 < len (vi_enc n).
+Proof. pose proof (vi_enc_nonempty n). unfold len. destruct (vi_enc n); [congruence | cbn [length]; lia]. Qed.
+
+Lemma savings_pos_len c : (0 < savings c)%Z ->
+  match c with BAdaptive _ content _ => 0 < len content | _ => False end.
+Proof. destruct c as [| e v | o content addr]; cbn [savings]; lia. Qed.
+
+Definition given_inline (c : bcell) : bool := match c with BAdaptive true _ _ => false | _ => true end.
+
+Lemma held_form target c : 0 < target -> given_inline c = true -> form_ok c (held target c).
+Proof.
+  intros Ht Hg. destruct c as [| e v | o content addr].
+  - reflexivity.
+  - reflexivity.
+  - destruct o; [discriminate Hg|]. cbn [form_ok held].
+    destruct (N.ltb_spec target (len content + 1)) as [H | H]; [right; split; [reflexivity | lia] | left; reflexivity].
+Qed.
+
+Lemma candidates_spec cs : forall i j s,
+  In (j, s) (candidates i cs) -> i <= j /\ (0 < savings (nth (N.to_nat (j - i)) cs BNull))%Z.
+Proof.
+  induction cs as [|c cs IH]; intros i j s H; [destruct H|].
+  cbn [candidates] in H.
+  assert (Hrest : In (j, s) (candidates (i + 1) cs) -> i <= j /\ (0 < savings (nth (N.to_nat (j - i)) (c :: cs) BNull))%Z).
+  { intros H'. apply IH in H' as [H1 H2]. split; [lia|].
+    replace (N.to_nat (j - i)) with (S (N.to_nat (j - (i + 1)))) by lia. exact H2. }
+  destruct c as [| e v | o content addr]; try (apply Hrest; exact H).
+  destruct (Z.ltb_spec 0 (savings (BAdaptive o content addr))) as [Hs | Hs]; [|apply Hrest; exact H].
+  destruct H as [H | H]; [|apply Hrest; exact H].
+  inversion H; subst. split; [lia|]. rewrite N.sub_diag. exact Hs.
+Qed.
+
+Lemma insert_desc_in x l y : In y (insert_desc x l) -> y = x \/ In y l.
+Proof.
+  induction l as [|z l IH]; cbn [insert_desc]; [intros [H | []]; left; symmetry; exact H|].
+  destruct (snd z <=? snd x)%Z; intros H.
+  - destruct H as [H | H]; [left; symmetry; exact H | right; exact H].
+  - destruct H as [H | H]; [right; left; exact H|]. apply IH in H as [H | H]; [left; exact H | right; right; exact H].
+Qed.
+
+Lemma sort_desc_in l y : In y (sort_desc l) -> In y l.
+Proof.
+  unfold sort_desc. induction l as [|x l IH]; cbn [fold_right]; [intros []|].
+  intros H. apply insert_desc_in in H as [H | H]; [left; symmetry; exact H | right; apply IH; exact H].
+Qed.
+
+Lemma pick_outline_in total target cands j : In j (pick_outline total target cands) -> exists s, In (j, s) cands.
+Proof.
+  revert total; induction cands as [|[i s] r IH]; intros total H; [destruct H|].
+  cbn [pick_outline] in H. destruct (total - s <=? target)%Z.
+  - destruct H as [H | []]. exists s. left. rewrite H. reflexivity.
+  - destruct H as [H | H]; [exists s; left; rewrite H; reflexivity|].
+    apply IH in H as [s' H]. exists s'. right. exact H.
+Qed.
+
+Lemma normalise_form outs cs : forall i,
+  (forall j, In j outs -> i <= j -> (0 < savings (nth (N.to_nat (j - i)) cs BNull))%Z) ->
+  Forall2 form_ok cs (normalise i outs cs).
+Proof.
+  induction cs as [|c cs IH]; intros i H; cbn [normalise]; constructor.
+  - destruct c as [| e v | o content addr]; cbn [form_ok normalise_cell]; try reflexivity.
+    destruct (existsb (N.eqb i) outs) eqn:E; [|left; reflexivity].
+    right. split; [reflexivity|].
+    apply existsb_exists in E as [j [Hj Ej]]. apply N.eqb_eq in Ej. subst j.
+    specialize (H i Hj ltac:(lia)). rewrite N.sub_diag in H. cbn [N.to_nat nth] in H.
+    apply savings_pos_len in H. exact H.
+  - apply IH. intros j Hj Hij. specialize (H j Hj ltac:(lia)).
+    replace (N.to_nat (j - i)) with (S (N.to_nat (j - (i + 1)))) in H by lia. exact H.
+Qed.
+
+Lemma build_fields_form target cs :
+  0 < target -> forallb given_inline cs = true -> Forall2 form_ok cs (build_fields target cs).
+Proof.
+  intros Ht Hg. unfold build_fields.
+  destruct (target <? sum_N (map inline_contrib cs)).
+  - apply normalise_form. intros j Hj _.
+    apply pick_outline_in in Hj as [s Hj]. apply sort_desc_in in Hj.
+    apply candidates_spec in Hj as [_ Hs]. rewrite N.sub_0_r in Hs |- *. exact Hs.
+  - rewrite forallb_forall in Hg. induction cs as [|c cs IH]; cbn [map]; constructor.
+    + apply held_form; [exact Ht | apply Hg; left; reflexivity].
+    + apply IH. intros x Hx. apply Hg. right. exact Hx.
+Qed.
+
+(* ================================================================== *)
+(* oracle_on_model: the property holds of the model on every           *)
+(* well-formed input outside the F9 class                              *)
+Definition is_adaptive (e : enc) : bool := match kind_of e with KAdaptive => true | _ => false end.
+
+Definition cell_ok (e : enc) (c : cell) : bool :=
+  match c with
+  | CNull => true
+  | CVal v => wf_val e v && negb (is_adaptive e)       (* adaptive columns take CAd cells *)
+  | CAd content _ => is_adaptive e && (len content <? 2 ^ 64)
+  end.
+
+Definition cells_ok (types : list enc) (cs : list cell) : bool :=
+  (length cs <=? length types)%nat && forallb (fun p => cell_ok (fst p) (snd p)) (combine types cs).
+
+(* within one case the value store is a bijection between the contents and
+   their addresses (content addressing, no collision among the case's values) *)
+Definition pair_ok (p q : cell) : bool :=
+  match p, q with
+  | CAd c1 a1, CAd c2 a2 => Bool.eqb (beq_bytes c1 c2) (beq_bytes a1 a2)
+  | _, _ => true
+  end.
+Definition store_ok (cs : list cell) : bool := forallb (fun p => forallb (pair_ok p) cs) cs.
+
+(* F9 class: an adaptive value of more than 20 bytes supplied as (length,
+   address) to a tuple whose all-inline size is within the target *)
+Definition f9_free (i : input) : bool :=
+  let types := map fst (i_types i) in
+  (i_target i <? sum_N (map inline_contrib (bcells false types (i_a i))))
+  || forallb (fun c => match c with CAd content _ => len content <=? 20 | _ => true end) (i_a i).
+
+Definition wf_input (i : input) : bool :=
+  let types := map fst (i_types i) in
+  (0 <? i_target i)
+  && Nat.eqb (length (i_a i)) (length types)
+  && cells_ok types (i_a i) && cells_ok types (i_b i)
+  && store_ok (i_a i ++ i_b i)
+  && within_limits (trim_nulls (build_fields (i_target i) (bcells false types (i_a i))))
+  && within_limits (trim_nulls (build_fields (i_target i) (bcells false types (i_b i)))).
+
+Definition represents (rd : bytes -> bytes) (e : enc) (f : field) (v : option sval) : Prop :=
+  match f, v with
+  | None, None => True
+  | Some b, Some x => decode rd e b = x
+  | _, _ => False
+  end.
+
+Definition cell_val (c : cell) : option sval :=
+  match c with CNull => None | CVal v => Some v | CAd content _ => Some (VB content) end.
+
+Lemma row_of_map cs : row_of cs = map cell_val cs.
+Proof. reflexivity. Qed.
+
+Lemma decode_adaptive rd e b : is_adaptive e = true -> decode rd e b = VB (ad_content rd b).
+Proof. unfold is_adaptive, decode. destruct (kind_of e); intros H; try discriminate H. reflexivity. Qed.
+
+Lemma cell_represents rd e c f :
+  cell_ok e c = true ->
+  (forall content addr, c = CAd content addr -> rd addr = content) ->
+  form_ok (to_bcell false e c) f -> represents rd e f (cell_val c).
+Proof.
+  intros Hok Hrd Hf. destruct c as [| v | content addr]; cbn [to_bcell form_ok cell_val andb] in *.
+  - subst f. exact I.
+  - subst f. cbn [represents]. apply andb_true_iff in Hok as [Hok _]. apply dec_enc. exact Hok.
+  - apply andb_true_iff in Hok as [Ha Hl]. apply N.ltb_lt in Hl.
+    destruct Hf as [-> | [-> Hpos]]; cbn [represents]; rewrite decode_adaptive by exact Ha; f_equal.
+    all: try reflexivity.
+    rewrite ad_content_outline by assumption. apply Hrd. reflexivity.
+Qed.
+
+Lemma cell_field_nonempty e c b : cell_ok e c = true -> form_ok (to_bcell false e c) (Some b) -> b <> [].
+Proof.
+  intros Hok Hf. destruct c as [| v | content addr]; cbn [to_bcell form_ok andb] in *.
+  - discriminate Hf.
+  - inversion Hf; subst. apply andb_true_iff in Hok as [Hok _]. apply encode_nonempty. exact Hok.
+  - destruct Hf as [Hf | [Hf _]]; inversion Hf; subst; [discriminate|].
+    unfold ad_outline. pose proof (vi_enc_nonempty (len content)). destruct (vi_enc (len content)); [congruence | discriminate].
+Qed.
+
+(* --- store lookups --- *)
+Lemma store_ok_pair cs p q : store_ok cs = true -> In p cs -> In q cs -> pair_ok p q = true.
+Proof.
+  unfold store_ok. rewrite forallb_forall. intros H Hp Hq. specialize (H p Hp). rewrite forallb_forall in H. apply H. exact Hq.
+Qed.
+
+Lemma lookup_store cs l content addr :
+  store_ok cs = true -> (forall x, In x l -> In x cs) -> In (CAd content addr) cs -> In (CAd content addr) l ->
+  lookup (store_of l) addr = content.
+Proof.
+  intros Hs. induction l as [|x l IH]; intros Hsub Hcs Hin; [destruct Hin|].
+  assert (Hrest : In (CAd content addr) l -> lookup (store_of l) addr = content).
+  { intros H. apply IH; [intros y Hy; apply Hsub; right; exact Hy | exact Hcs | exact H]. }
+  destruct x as [| v | c a]; cbn [store_of].
+  - destruct Hin as [H | H]; [discriminate H | apply Hrest; exact H].
+  - destruct Hin as [H | H]; [discriminate H | apply Hrest; exact H].
+  - cbn [lookup]. destruct (beq_bytes a addr) eqn:E.
+    + pose proof (store_ok_pair cs (CAd c a) (CAd content addr) Hs (Hsub _ (or_introl eq_refl)) Hcs) as P.
+      cbn [pair_ok] in P. rewrite E in P. apply eqb_prop in P. apply beq_bytes_spec in P. exact P.
+    + destruct Hin as [H | H]; [inversion H; subst; rewrite beq_bytes_refl in E; discriminate E | apply Hrest; exact H].
+Qed.
+
+(* --- per-column facts for a built tuple --- *)
+Lemma bcells_cons e ts c cs : bcells false (e :: ts) (c :: cs) = to_bcell false e c :: bcells false ts cs.
+Proof. reflexivity. Qed.
+
+Lemma cells_ok_cons e ts c cs : cells_ok (e :: ts) (c :: cs) = true -> cell_ok e c = true /\ cells_ok ts cs = true.
+Proof.
+  unfold cells_ok. cbn [length combine forallb fst snd]. intros H.
+  apply andb_true_iff in H as [H1 H2]. apply andb_true_iff in H2 as [H2 H3].
+  split; [exact H2|]. rewrite H3, andb_true_r. apply Nat.leb_le in H1. apply Nat.leb_le. lia.
+Qed.
+
+Lemma cells_ok_length types cs : cells_ok types cs = true -> (length cs <= length types)%nat.
+Proof. unfold cells_ok. intros H. apply andb_true_iff in H as [H _]. apply Nat.leb_le. exact H. Qed.
+
+Lemma columns_represent rd types : forall cs fs,
+  cells_ok types cs = true ->
+  (forall content addr, In (CAd content addr) cs -> rd addr = content) ->
+  Forall2 form_ok (bcells false types cs) fs ->
+  nonempty_fields fs
+  /\ length fs = length cs
+  /\ (forall j, represents rd (nth j types EInt8) (nth j fs None) (nth j (row_of cs) None))
+  /\ map (fun p => match snd p with None => None | Some b => Some (decode rd (fst p) b) end) (combine types fs) = row_of cs.
+Proof.
+  induction types as [|e ts IH]; intros cs fs Hok Hrd HF.
+  - pose proof (cells_ok_length _ _ Hok) as L. destruct cs; [|cbn in L; lia].
+    inversion HF; subst. repeat split; try reflexivity; [intros b [] | intros j; destruct j; exact I].
+  - destruct cs as [|c cs].
+    + inversion HF; subst. repeat split; try reflexivity; [intros b [] | intros j; destruct j; exact I].
+    + rewrite bcells_cons in HF. inversion HF as [|x f l fs' Hf HF' E1 E2]; subst.
+      apply cells_ok_cons in Hok as [Hc Hcs].
+      destruct (IH cs fs' Hcs (fun content addr H => Hrd content addr (or_intror H)) HF') as (N1 & N2 & N3 & N4).
+      assert (Hrep : represents rd e f (cell_val c)).
+      { apply cell_represents; [exact Hc | intros content addr ->; apply Hrd; left; reflexivity | exact Hf]. }
+      repeat split.
+      * intros b [Hb | Hb]; [subst f; eapply cell_field_nonempty; eassumption | apply N1; exact Hb].
+      * cbn [length]. rewrite N2. reflexivity.
+      * intros [|j]; cbn [nth row_of map]; [exact Hrep | apply N3].
+      * cbn [combine map fst snd row_of]. change (map _ cs) with (row_of cs). rewrite <- N4. f_equal.
+        destruct f as [b|], c as [| v | content addr]; cbn [represents cell_val] in Hrep |- *; try contradiction; try reflexivity; rewrite Hrep; reflexivity.
+Qed.
+
+Lemma field_compare_represents rd e fa fb va vb :
+  represents rd e fa va -> represents rd e fb vb -> field_compare rd e fa fb = opt_compare e va vb.
+Proof.
+  destruct fa as [a|], va as [x|], fb as [b|], vb as [y|]; cbn [represents field_compare opt_compare]; try contradiction; try reflexivity.
+  intros <- <-. reflexivity.
+Qed.
+
+(* --- NULL patterns and trimming --- *)
+Lemma trim_pattern (fs : list field) (r : row) :
+  Forall2 (fun f v => f = None <-> v = None) fs r ->
+  length (trim_nulls fs) = length (trim_row r) /\ (trim_nulls fs = [] <-> trim_row r = []).
+Proof.
+  induction 1 as [|f v fs r Hfv _ IH]; [split; [reflexivity | split; reflexivity]|].
+  destruct IH as [IL IE]. rewrite trim_nulls_cons. cbn [trim_row].
+  destruct (trim_nulls fs) as [|x t] eqn:T; destruct (trim_row r) as [|y u] eqn:U.
+  - destruct f as [b|], v as [z|]; cbn [length].
+    + split; [reflexivity | split; discriminate].
+    + exfalso. destruct Hfv as [_ H]. discriminate (H eq_refl).
+    + exfalso. destruct Hfv as [H _]. discriminate (H eq_refl).
+    + split; [reflexivity | split; reflexivity].
+  - exfalso. destruct IE as [H _]. discriminate (H eq_refl).
+  - exfalso. destruct IE as [_ H]. discriminate (H eq_refl).
+  - assert (E1 : match f with Some _ | _ => f :: x :: t end = f :: x :: t) by (destruct f; reflexivity).
+    assert (E2 : match v with Some _ | _ => v :: y :: u end = v :: y :: u) by (destruct v; reflexivity).
+    destruct f, v; cbn [length] in *; (split; [lia | split; discriminate]).
+Qed.
+
+(* --- canonical form: rows equal up to trailing NULLs build the same bytes --- *)
+Lemma sum_N_app_zeros l n : sum_N (l ++ repeat 0 n) = sum_N l.
+Proof.
+  induction l as [|x l IH]; cbn [app sum_N fold_right].
+  - induction n as [|n IHn]; [reflexivity|]. cbn [repeat fold_right]. unfold sum_N in IHn. rewrite IHn. reflexivity.
+  - unfold sum_N in IH. rewrite IH. reflexivity.
+Qed.
+
+Lemma candidates_app_nulls cs n : forall i, candidates i (cs ++ repeat BNull n) = candidates i cs.
+Proof.
+  induction cs as [|c cs IH]; intros i; cbn [app].
+  - revert i; induction n as [|n IHn]; intros i; [reflexivity|]. cbn [repeat candidates]. apply IHn.
+  - cbn [candidates]. rewrite IH. reflexivity.
+Qed.
+
+Lemma normalise_app_nulls outs cs n : forall i,
+  normalise i outs (cs ++ repeat BNull n) = normalise i outs cs ++ repeat None n.
+Proof.
+  induction cs as [|c cs IH]; intros i; cbn [app].
+  - revert i; induction n as [|n IHn]; intros i; [reflexivity|]. cbn [repeat normalise normalise_cell]. rewrite IHn. reflexivity.
+  - cbn [normalise]. rewrite IH. reflexivity.
+Qed.
+
+Lemma map_repeat' {A B} (f : A -> B) x n : map f (repeat x n) = repeat (f x) n.
+Proof. induction n as [|n IH]; [reflexivity|]. cbn [repeat map]. rewrite IH. reflexivity. Qed.
+
+Lemma build_fields_app_nulls target cs n :
+  build_fields target (cs ++ repeat BNull n) = build_fields target cs ++ repeat None n.
+Proof.
+  unfold build_fields.
+  assert (E : sum_N (map inline_contrib (cs ++ repeat BNull n)) = sum_N (map inline_contrib cs)).
+  { rewrite map_app, map_repeat'. cbn [inline_contrib]. apply sum_N_app_zeros. }
+  rewrite E, candidates_app_nulls.
+  destruct (target <? sum_N (map inline_contrib cs)).
+  - apply normalise_app_nulls.
+  - rewrite map_app, map_repeat'. reflexivity.
+Qed.
+
+Lemma build_app_nulls target cs n : build target (cs ++ repeat BNull n) = build target cs.
+Proof. unfold build. rewrite build_fields_app_nulls. apply new_tuple_drops_trailing_nulls. Qed.
+
+Fixpoint trim_cells (cs : list cell) : list cell :=
+  match cs with
+  | [] => []
+  | c :: r => match trim_cells r, c with [], CNull => [] | t, _ => c :: t end
+  end.
+
+Lemma trim_cells_decomp cs : exists k, cs = trim_cells cs ++ repeat CNull k.
+Proof.
+  induction cs as [|c cs [k IH]]; [exists 0%nat; reflexivity|].
+  cbn [trim_cells]. destruct (trim_cells cs) as [|x t] eqn:T.
+  - cbn [app] in IH. destruct c as [| v | content addr].
+    + exists (S k). cbn [app repeat]. f_equal. exact IH.
+    + exists k. cbn [app]. f_equal. exact IH.
+    + exists k. cbn [app]. f_equal. exact IH.
+  - exists k. destruct c; cbn [app]; f_equal; exact IH.
+Qed.
+
+Lemma row_of_trim_cells cs : row_of (trim_cells cs) = trim_row (row_of cs).
+Proof.
+  induction cs as [|c cs IH]; [reflexivity|].
+  cbn [trim_cells row_of map trim_row]. change (map _ cs) with (row_of cs). rewrite <- IH.
+  destruct (trim_cells cs) as [|x t]; destruct c; reflexivity.
+Qed.
+
+Lemma In_trim_cells x cs : In x (trim_cells cs) -> In x cs.
+Proof.
+  destruct (trim_cells_decomp cs) as [k E]. intros H. rewrite E. apply in_or_app. left. exact H.
+Qed.
+
+Lemma cells_ok_app types x y : cells_ok types (x ++ y) = true -> cells_ok types x = true.
+Proof.
+  revert x; induction types as [|e ts IH]; intros x H.
+  - pose proof (cells_ok_length _ _ H) as L. destruct x; [reflexivity | cbn in L; lia].
+  - destruct x as [|c x]; [reflexivity|]. cbn [app] in H. apply cells_ok_cons in H as [Hc Hx].
+    apply IH in Hx. unfold cells_ok in *. cbn [length combine forallb fst snd].
+    apply andb_true_iff in Hx as [H1 H2]. rewrite Hc, H2. apply Nat.leb_le in H1.
+    rewrite andb_true_r. apply Nat.leb_le. lia.
+Qed.
+
+Lemma cells_inj cs types : forall x y,
+  store_ok cs = true -> (forall c, In c x -> In c cs) -> (forall c, In c y -> In c cs) ->
+  cells_ok types x = true -> cells_ok types y = true -> row_of x = row_of y -> x = y.
+Proof.
+  intros x y Hs. revert x y; induction types as [|e ts IH]; intros x y Hx Hy Ox Oy E.
+  - pose proof (cells_ok_length _ _ Ox) as L1. pose proof (cells_ok_length _ _ Oy) as L2.
+    destruct x; [|cbn in L1; lia]. destruct y; [reflexivity | cbn in L2; lia].
+  - destruct x as [|c x], y as [|d y]; try discriminate E; [reflexivity|].
+    cbn [row_of map] in E. inversion E as [[E1 E2]].
+    apply cells_ok_cons in Ox as [Oc Ox]. apply cells_ok_cons in Oy as [Od Oy].
+    f_equal.
+    + destruct c as [| v | c1 a1], d as [| w | c2 a2]; try discriminate E1; try reflexivity.
+      * inversion E1; subst. reflexivity.
+      * cbn [cell_ok] in Oc, Od. apply andb_true_iff in Oc as [_ Oc]. apply andb_true_iff in Od as [Od _]. rewrite Od in Oc. discriminate Oc.
+      * cbn [cell_ok] in Oc, Od. apply andb_true_iff in Od as [_ Od]. apply andb_true_iff in Oc as [Oc _]. rewrite Oc in Od. discriminate Od.
+      * inversion E1; subst.
+        pose proof (store_ok_pair cs _ _ Hs (Hx _ (or_introl eq_refl)) (Hy _ (or_introl eq_refl))) as P.
+        cbn [pair_ok] in P. rewrite beq_bytes_refl in P. apply eqb_prop in P. symmetry in P. apply beq_bytes_spec in P. subst. reflexivity.
+    + apply IH; [intros z Hz; apply Hx; right; exact Hz | intros z Hz; apply Hy; right; exact Hz | exact Ox | exact Oy | exact E2].
+Qed.
+
+Lemma bcells_app_nulls types : forall cs k,
+  (length (cs ++ repeat CNull k) <= length types)%nat ->
+  bcells false types (cs ++ repeat CNull k) = bcells false types cs ++ repeat BNull k.
+Proof.
+  induction types as [|e ts IH]; intros cs k L.
+  - rewrite app_length, repeat_length in L. cbn [length] in L.
+    destruct cs; [|cbn in L; lia]. destruct k; [reflexivity | cbn in L; lia].
+  - destruct cs as [|c cs].
+    + cbn [app]. destruct k as [|k]; [reflexivity|]. cbn [repeat]. rewrite bcells_cons.
+      cbn [to_bcell]. cbn [app length repeat] in L. rewrite repeat_length in L.
+      pose proof (IH [] k) as E. cbn [app] in E. rewrite E by (rewrite repeat_length; lia).
+      destruct ts; reflexivity.
+    + cbn [app]. rewrite !bcells_cons. cbn [app length] in L. rewrite IH by lia. reflexivity.
+Qed.
+
+(* sval equality test is sound *)
+Lemma sval_eqb_eq a b : sval_eqb a b = true -> a = b.
+Proof.
+  destruct a as [x | x | x | y1 m1 d1 | x], b as [y | y | y | y2 m2 d2 | y]; cbn [sval_eqb]; intros H; try discriminate H.
+  - apply Z.eqb_eq in H. congruence.
+  - apply N.eqb_eq in H. congruence.
+  - apply beq_bytes_spec in H. congruence.
+  - apply andb_true_iff in H as [H H3]. apply andb_true_iff in H as [H1 H2].
+    apply N.eqb_eq in H1, H2, H3. congruence.
+  - destruct x as [| n1 | n1 c1 e1], y as [| n2 | n2 c2 e2]; cbn [decimal_eqb] in H; try discriminate H.
+    + reflexivity.
+    + apply eqb_prop in H. congruence.
+    + apply andb_true_iff in H as [H H3]. apply andb_true_iff in H as [H1 H2].
+      apply eqb_prop in H1. apply N.eqb_eq in H2. apply Z.eqb_eq in H3. congruence.
+Qed.
+
+Lemma sval_eqb_refl a : sval_eqb a a = true.
+Proof.
+  destruct a as [x | x | x | y m d | x]; cbn [sval_eqb].
+  - apply Z.eqb_refl. - apply N.eqb_refl. - apply beq_bytes_refl.
+  - rewrite !N.eqb_refl. reflexivity.
+  - destruct x as [| n | n c e]; cbn [decimal_eqb]; [reflexivity | apply eqb_reflx |].
+    rewrite eqb_reflx, N.eqb_refl, Z.eqb_refl. reflexivity.
+Qed.
+
+Lemma osval_list_eqb_eq (a b : list (option sval)) : list_eqb osval_eqb a b = true -> a = b.
+Proof.
+  revert b; induction a as [|x a IH]; intros [|y b] H; cbn [list_eqb] in H; try discriminate H; [reflexivity|].
+  apply andb_true_iff in H as [H1 H2]. f_equal; [|apply IH; exact H2].
+  destruct x, y; cbn [osval_eqb] in H1; try discriminate H1; [f_equal; apply sval_eqb_eq; exact H1 | reflexivity].
+Qed.
+
+Lemma osval_list_eqb_refl (a : list (option sval)) : list_eqb osval_eqb a a = true.
+Proof.
+  induction a as [|x a IH]; [reflexivity|]. cbn [list_eqb]. rewrite IH, andb_true_r.
+  destruct x; [apply sval_eqb_refl | reflexivity].
+Qed.
+
+Lemma bcells_given_inline types : forall cs, forallb given_inline (bcells false types cs) = true.
+Proof.
+  induction types as [|e ts IH]; intros cs; [reflexivity|].
+  destruct cs as [|c cs]; [reflexivity|]. rewrite bcells_cons. cbn [forallb]. rewrite IH, andb_true_r.
+  destruct c; reflexivity.
+Qed.
+
+Lemma bcells_forget o types : forall cs,
+  map forget_form (bcells o types cs) = map forget_form (bcells false types cs).
+Proof.
+  induction types as [|e ts IH]; intros cs; [reflexivity|].
+  destruct cs as [|c cs]; [reflexivity|].
+  change (bcells o (e :: ts) (c :: cs)) with (to_bcell o e c :: bcells o ts cs).
+  rewrite bcells_cons. cbn [map]. rewrite IH. f_equal. destruct c; reflexivity.
+Qed.
+
+Lemma bcells_small_same types : forall cs,
+  forallb (fun c => match c with CAd content _ => len content <=? 20 | _ => true end) cs = true ->
+  bcells true types cs = bcells false types cs.
+Proof.
+  induction types as [|e ts IH]; intros cs H; [reflexivity|].
+  destruct cs as [|c cs]; [reflexivity|]. cbn [forallb] in H. apply andb_true_iff in H as [Hc H].
+  change (bcells true (e :: ts) (c :: cs)) with (to_bcell true e c :: bcells true ts cs).
+  rewrite bcells_cons, IH by exact H. f_equal.
+  destruct c as [| v | content addr]; try reflexivity. cbn [to_bcell].
+  apply N.leb_le in Hc. destruct (N.ltb_spec 20 (len content)); [lia | reflexivity].
+Qed.
+
+Lemma form_pattern types : forall cs fs,
+  Forall2 form_ok (bcells false types cs) fs -> (length cs <= length types)%nat ->
+  Forall2 (fun (f : field) (v : option sval) => f = None <-> v = None) fs (row_of cs).
+Proof.
+  induction types as [|e ts IH]; intros cs fs HF L.
+  - destruct cs; [|cbn in L; lia]. inversion HF; subst. constructor.
+  - destruct cs as [|c cs]; [inversion HF; subst; constructor|].
+    rewrite bcells_cons in HF. inversion HF as [|x f l fs' Hf HF' E1 E2]; subst.
+    cbn [row_of map]. constructor; [|apply IH; [exact HF' | cbn [length] in L; lia]].
+    destruct c as [| v | content addr]; cbn [to_bcell form_ok cell_val andb] in *.
+    + subst f. split; reflexivity.
+    + subst f. split; discriminate.
+    + destruct Hf as [-> | [-> _]]; split; discriminate.
+Qed.
+
+Lemma map_nth_seq {A} (l : list A) d : map (fun j => nth j l d) (seq 0 (length l)) = l.
+Proof.
+  induction l as [|x l IH]; [reflexivity|].
+  cbn [length seq map nth]. f_equal. rewrite <- seq_shift, map_map. cbn [nth]. exact IH.
+Qed.
+
+Lemma fields_read_back (fs : list field) :
+  fields_ok fs -> map (get_field (new_tuple fs)) (enum_N (length fs)) = fs.
+Proof.
+  intros H. unfold enum_N. rewrite map_map.
+  rewrite (map_ext _ (fun j => nth j fs None)) by (intros j; apply tuple_roundtrip; exact H).
+  apply map_nth_seq.
+Qed.
+
+Theorem oracle_on_model (i : input) :
+  wf_input i = true -> f9_free i = true -> oracle i (model_obs i) = true.
+Proof.
+  unfold wf_input, f9_free. intros W F9.
+  set (types := map fst (i_types i)) in *. set (tg := i_target i) in *.
+  apply andb_true_iff in W as [W WLb]. apply andb_true_iff in W as [W WLa].
+  apply andb_true_iff in W as [W WS]. apply andb_true_iff in W as [W WB].
+  apply andb_true_iff in W as [W WA]. apply andb_true_iff in W as [WT WN].
+  apply N.ltb_lt in WT. apply Nat.eqb_eq in WN.
+  set (rd := lookup (store_of (i_a i ++ i_b i))).
+  set (ca := bcells false types (i_a i)) in *. set (cb := bcells false types (i_b i)) in *.
+  set (fa := build_fields tg ca) in *. set (fb := build_fields tg cb) in *.
+  assert (FA : Forall2 form_ok ca fa) by (apply build_fields_form; [exact WT | apply bcells_given_inline]).
+  assert (FB : Forall2 form_ok cb fb) by (apply build_fields_form; [exact WT | apply bcells_given_inline]).
+  assert (RA : forall content addr, In (CAd content addr) (i_a i) -> rd addr = content).
+  { intros content addr H. apply (lookup_store (i_a i ++ i_b i)); [exact WS | auto | |]; apply in_or_app; left; exact H. }
+  assert (RB : forall content addr, In (CAd content addr) (i_b i) -> rd addr = content).
+  { intros content addr H. apply (lookup_store (i_a i ++ i_b i)); [exact WS | auto | |]; apply in_or_app; right; exact H. }
+  destruct (columns_represent rd types (i_a i) fa WA RA FA) as (NA & LA & PA & DA).
+  destruct (columns_represent rd types (i_b i) fb WB RB FB) as (NB & LB & PB & DB).
+  assert (OKA : fields_ok fa) by (split; assumption).
+  assert (OKB : fields_ok fb) by (split; assumption).
+  assert (CMP : forall L R (fl fr : list field) (rl rr : list cell),
+            fields_ok fl -> fields_ok fr ->
+            (forall j, represents rd (nth j types EInt8) (nth j fl None) (nth j (row_of rl) None)) ->
+            (forall j, represents rd (nth j types EInt8) (nth j fr None) (nth j (row_of rr) None)) ->
+            L = new_tuple fl -> R = new_tuple fr ->
+            tuple_compare rd types L R = row_compare types (row_of rl) (row_of rr)).
+  { intros L R fl fr rl rr Ol Or Pl Pr -> ->. unfold tuple_compare. change 0 with (N.of_nat 0).
+    apply tuple_compare_from_spec. intros j _. cbn [Nat.add].
+    rewrite !tuple_roundtrip by assumption. apply field_compare_represents; [apply Pl | apply Pr]. }
+  unfold oracle, model_obs.
+  cbn [o_a o_same o_a_out o_b o_count o_fields o_dec o_cmp o_cmp_ba o_cmp_nofast i_types i_target i_a i_b].
+  fold types tg rd ca cb.
+  change (build tg ca) with (new_tuple fa). change (build tg cb) with (new_tuple fb).
+  repeat (apply andb_true_iff; split).
+  - reflexivity.
+  - apply beq_bytes_spec. apply orb_true_iff in F9 as [F | F].
+    + apply N.ltb_lt in F. apply build_repr_independent_partial.
+      * apply bcells_forget.
+      * rewrite <- (inline_contrib_forget (bcells true types (i_a i))), bcells_forget, inline_contrib_forget. exact F.
+    + unfold ca. rewrite (bcells_small_same types _ F). reflexivity.
+  - rewrite tuple_count by exact OKA.
+    destruct (trim_pattern fa (row_of (i_a i)) (form_pattern types _ _ FA (cells_ok_length _ _ WA))) as [E _].
+    rewrite E. apply N.eqb_refl.
+  - rewrite <- LA in WN. rewrite <- WN, fields_read_back by exact OKA. rewrite DA. apply osval_list_eqb_refl.
+  - rewrite (CMP _ _ fa fb (i_a i) (i_b i)) by (try assumption; reflexivity). apply Z.eqb_refl.
+  - rewrite (CMP _ _ fb fa (i_b i) (i_a i)) by (try assumption; reflexivity). apply Z.eqb_refl.
+  - apply Z.eqb_refl.
+  - destruct (list_eqb osval_eqb (trim_row (row_of (i_a i))) (trim_row (row_of (i_b i)))) eqn:E; [|reflexivity].
+    cbn [negb orb]. apply beq_bytes_spec. apply osval_list_eqb_eq in E.
+    rewrite <- !row_of_trim_cells in E.
+    destruct (trim_cells_decomp (i_a i)) as [k1 E1]. destruct (trim_cells_decomp (i_b i)) as [k2 E2].
+    assert (Eq0 : trim_cells (i_a i) = trim_cells (i_b i)).
+    { apply (cells_inj (i_a i ++ i_b i) types); [exact WS | | | | | exact E].
+      - intros c Hc. apply in_or_app. left. apply In_trim_cells. exact Hc.
+      - intros c Hc. apply in_or_app. right. apply In_trim_cells. exact Hc.
+      - apply (cells_ok_app types _ (repeat CNull k1)). rewrite <- E1. exact WA.
+      - apply (cells_ok_app types _ (repeat CNull k2)). rewrite <- E2. exact WB. }
+    change (new_tuple fa) with (build tg ca). change (new_tuple fb) with (build tg cb).
+    assert (Ha : ca = bcells false types (trim_cells (i_a i)) ++ repeat BNull k1).
+    { unfold ca. rewrite E1 at 1. apply bcells_app_nulls. rewrite <- E1. apply cells_ok_length. exact WA. }
+    assert (Hb : cb = bcells false types (trim_cells (i_b i)) ++ repeat BNull k2).
+    { unfold cb. rewrite E2 at 1. apply bcells_app_nulls. rewrite <- E2. apply cells_ok_length. exact WB. }
+    rewrite Ha, Hb, !build_app_nulls, Eq0. reflexivity.
+Qed.
+
+
+(* ================================================================== *)
+(* Floats: the comparison on bit patterns is the order of the values    *)
+(* value of a magnitude (sign bit cleared) with p fraction bits, scaled by
+   2^(bias + p - 1) so that it is an integer: subnormals f, normals (2^p + f) * 2^(e-1);
+   infinity (e = all ones, f = 0) lands above every finite value *)
+Definition mag_value (p mag : N) : N :=
+  let e := mag / 2 ^ p in
+  let f := mag mod 2 ^ p in
+  (if e =? 0 then f else 2 ^ p + f) * 2 ^ (N.max e 1 - 1).
+
+Definition float_value (fbits ebits n : N) : Z :=
+  let v := Z.of_N (mag_value (fbits - 1 - ebits) (n mod 2 ^ (fbits - 1))) in
+  if n <? 2 ^ (fbits - 1) then v else (- v)%Z.
+
+Lemma mag_value_mono p m1 m2 : m1 < m2 -> mag_value p m1 < mag_value p m2.
+Proof.
+  intros H. unfold mag_value.
+  assert (HP : 0 < 2 ^ p) by (apply N.neq_0_lt_0, N.pow_nonzero; lia).
+  set (P := 2 ^ p) in *.
+  pose proof (N.div_mod m1 P ltac:(lia)) as D1. pose proof (N.div_mod m2 P ltac:(lia)) as D2.
+  pose proof (N.mod_lt m1 P ltac:(lia)) as R1. pose proof (N.mod_lt m2 P ltac:(lia)) as R2.
+  set (e1 := m1 / P) in *. set (f1 := m1 mod P) in *. set (e2 := m2 / P) in *. set (f2 := m2 mod P) in *.
+  assert (He : e1 <= e2) by nia.
+  destruct (N.eq_dec e1 e2) as [Ee | Ne].
+  - rewrite <- Ee in *. assert (Hf : f1 < f2) by nia.
+    assert (Hs : 0 < 2 ^ (N.max e1 1 - 1)) by (apply N.neq_0_lt_0, N.pow_nonzero; lia).
+    destruct (e1 =? 0); apply N.mul_lt_mono_pos_r; try exact Hs; [exact Hf | apply N.add_lt_mono_l; exact Hf].
+  - assert (Hlt : e1 < e2) by lia.
+    assert (E2 : (e2 =? 0) = false) by (apply N.eqb_neq; lia). rewrite E2.
+    replace (N.max e2 1 - 1) with (e2 - 1) by lia.
+    assert (Hs2 : 1 <= 2 ^ (e2 - 1)) by (apply N.neq_0_lt_0 in HP; pose proof (N.pow_nonzero 2 (e2 - 1) ltac:(lia)); lia).
+    destruct (N.eqb_spec e1 0) as [Z1 | Z1].
+    + rewrite Z1. change (2 ^ (N.max 0 1 - 1)) with 1.
+      set (X := 2 ^ (e2 - 1)) in *. clearbody X. nia.
+    + replace (N.max e1 1 - 1) with (e1 - 1) by lia.
+      assert (Hpow : 2 * 2 ^ (e1 - 1) <= 2 ^ (e2 - 1)).
+      { replace (2 * 2 ^ (e1 - 1)) with (2 ^ e1).
+        - apply N.pow_le_mono_r; lia.
+        - replace e1 with (1 + (e1 - 1)) at 1 by lia. rewrite N.pow_add_r. reflexivity. }
+      set (X := 2 ^ (e2 - 1)) in *. set (Y := 2 ^ (e1 - 1)) in *. clearbody X Y. nia.
+Qed.
+
+Lemma mono_compare (g : N -> N) :
+  (forall x y, x < y -> g x < g y) -> forall x y, (g x ?= g y) = (x ?= y).
+Proof.
+  intros M x y. destruct (N.compare_spec x y) as [E | L | G].
+  - subst. apply N.compare_refl.
+  - apply N.compare_lt_iff. apply M. exact L.
+  - apply N.compare_gt_iff. apply M. exact G.
+Qed.
+
+Lemma mag_value_0 p : mag_value p 0 = 0.
+Proof.
+  unfold mag_value. rewrite N.div_0_l, N.mod_0_l by (apply N.pow_nonzero; lia). reflexivity.
+Qed.
+
+(* for every pair of bit patterns neither of which is a NaN, the comparison
+   the code makes (Go's == and < on the decoded floats, modelled on bit
+   patterns) is the order of the numeric values; -0 and +0 are equal *)
+Theorem float_compare_value (fbits ebits a b : N) :
+  float_is_nan fbits ebits a = false -> float_is_nan fbits ebits b = false ->
+  float_compare fbits ebits a b = (float_value fbits ebits a ?= float_value fbits ebits b)%Z.
+Proof.
+  intros Na Nb. unfold float_compare. rewrite Na, Nb. cbn [orb].
+  unfold float_key, float_value. cbv zeta.
+  set (p := fbits - 1 - ebits). set (ma := a mod 2 ^ (fbits - 1)). set (mb := b mod 2 ^ (fbits - 1)).
+  pose proof (mono_compare (mag_value p) (mag_value_mono p)) as MC.
+  pose proof (mag_value_0 p) as V0.
+  assert (Hpos : forall m, 0 < m -> 0 < mag_value p m).
+  { intros m Hm. rewrite <- V0. apply mag_value_mono. exact Hm. }
+  destruct (a <? 2 ^ (fbits - 1)), (b <? 2 ^ (fbits - 1)).
+  - rewrite !N2Z.inj_compare. symmetry. apply MC.
+  - destruct (N.eq_dec ma 0) as [Ea | Ea], (N.eq_dec mb 0) as [Eb | Eb].
+    + rewrite Ea, Eb, V0. reflexivity.
+    + rewrite Ea, V0. pose proof (Hpos mb ltac:(lia)). transitivity Gt; [|symmetry]; apply Z.compare_gt_iff; lia.
+    + rewrite Eb, V0. pose proof (Hpos ma ltac:(lia)). transitivity Gt; [|symmetry]; apply Z.compare_gt_iff; lia.
+    + pose proof (Hpos ma ltac:(lia)). pose proof (Hpos mb ltac:(lia)). transitivity Gt; [|symmetry]; apply Z.compare_gt_iff; lia.
+  - destruct (N.eq_dec ma 0) as [Ea | Ea], (N.eq_dec mb 0) as [Eb | Eb].
+    + rewrite Ea, Eb, V0. reflexivity.
+    + rewrite Ea, V0. pose proof (Hpos mb ltac:(lia)). transitivity Lt; [|symmetry]; apply Z.compare_lt_iff; lia.
+    + rewrite Eb, V0. pose proof (Hpos ma ltac:(lia)). transitivity Lt; [|symmetry]; apply Z.compare_lt_iff; lia.
+    + pose proof (Hpos ma ltac:(lia)). pose proof (Hpos mb ltac:(lia)). transitivity Lt; [|symmetry]; apply Z.compare_lt_iff; lia.
+  - rewrite !Z.compare_opp, !N2Z.inj_compare. symmetry. apply MC.
+Qed.
+
+(* NaN as implemented: compareFloatNN answers 1 whenever either side is a NaN
+   (l == r and l < r are both false) — not an order; SQL never stores NaN *)
+Lemma float_compare_nan (fbits ebits a b : N) :
+  float_is_nan fbits ebits a || float_is_nan fbits ebits b = true -> float_compare fbits ebits a b = Gt.
+Proof. intros H. unfold float_compare. rewrite H. reflexivity. Qed.
+
+Theorem cmp_enc_float32 (read : bytes -> bytes) (a b : N) :
+  a < 2 ^ 32 -> b < 2 ^ 32 -> float_is_nan 32 8 a = false -> float_is_nan 32 8 b = false ->
+  cmp_field read EFloat32 (encode EFloat32 (VN a)) (encode EFloat32 (VN b)) = (float_value 32 8 a ?= float_value 32 8 b)%Z.
+Proof.
+  intros Ha Hb Na Nb. rewrite cmp_enc by (apply N.ltb_lt; assumption).
+  apply (float_compare_value 32 8); assumption.
+Qed.
+
+Theorem cmp_enc_float64 (read : bytes -> bytes) (a b : N) :
+  a < 2 ^ 64 -> b < 2 ^ 64 -> float_is_nan 64 11 a = false -> float_is_nan 64 11 b = false ->
+  cmp_field read EFloat64 (encode EFloat64 (VN a)) (encode EFloat64 (VN b)) = (float_value 64 11 a ?= float_value 64 11 b)%Z.
+Proof.
+  intros Ha Hb Na Nb. rewrite cmp_enc by (apply N.ltb_lt; assumption).
+  apply (float_compare_value 64 11); assumption.
+Qed.
+
+(* sanity: 1.0 < 2.0, -1.0 < 1.0, -0.0 = +0.0, max finite < +Inf, subnormal < min normal *)
+Example float_value_examples :
+  (float_value 32 8 1065353216 ?= float_value 32 8 1073741824)%Z = Lt
+  /\ (float_value 32 8 3212836864 ?= float_value 32 8 1065353216)%Z = Lt
+  /\ (float_value 32 8 2147483648 ?= float_value 32 8 0)%Z = Eq
+  /\ (float_value 32 8 2139095039 ?= float_value 32 8 2139095040)%Z = Lt
+  /\ (float_value 32 8 8388607 ?= float_value 32 8 8388608)%Z = Lt.
+Proof. vm_compute. repeat split. Qed.
+
+
+(* ================================================================== *)
+(* Decimals: the comparison is that of the exact values c * 10^e — it   *)
+(* does not depend on the common power of ten both sides are scaled by  *)
+Lemma dec_scaled_shift neg c e m m' :
+  (m' <= m)%Z -> (m <= e)%Z -> dec_scaled neg c e m' = (dec_scaled neg c e m * 10 ^ (m - m'))%Z.
+Proof.
+  intros H1 H2. unfold dec_scaled.
+  replace (e - m')%Z with ((e - m) + (m - m'))%Z by lia.
+  rewrite Z.pow_add_r by lia. ring.
+Qed.
+
+Theorem decimal_compare_scale_invariant na ca ea nb cb eb m' :
+  (m' <= Z.min ea eb)%Z ->
+  (dec_scaled na ca ea m' ?= dec_scaled nb cb eb m')%Z = decimal_compare (DFin na ca ea) (DFin nb cb eb).
+Proof.
+  intros H. cbn [decimal_compare]. set (m := Z.min ea eb) in *.
+  rewrite (dec_scaled_shift na ca ea m m'), (dec_scaled_shift nb cb eb m m') by (subst m; lia).
+  symmetry. apply Zmult_compare_compat_r. apply Z.lt_gt. apply Z.pow_pos_nonneg; lia.
+Qed.
+
+(* non-vacuity of oracle_on_model's hypotheses *)
+Example wf_input_example :
+  let i := {| i_types := [(EInt32, false); (EString, true); (EStrAdaptive, true)]; i_target := 2048;
+              i_a := [CVal (VZ 7%Z); CNull; CAd [104; 105] [1; 2; 3]];
+              i_b := [CVal (VZ (-1)%Z); CVal (VB [120])] |} in
+  wf_input i = true /\ f9_free i = true.
+Proof. vm_compute. split; reflexivity. Qed.
